@@ -731,6 +731,13 @@ impl Circuit for ProgCircuit {
     }
 }
 
+/// Synthesise the program on a fresh composer and snapshot the result.
+pub fn snapshot_of(prog: &Program, tape: &Tape) -> Result<dusk_plonk::verif::Snapshot, Error> {
+    let mut c = Composer::initialized();
+    interpret(prog, tape, &mut c)?;
+    Ok(c.verif_snapshot())
+}
+
 /// Constraint count of the program (default instance); None if synthesis fails.
 pub fn count_constraints(prog: &Program) -> Option<usize> {
     let mut c = Composer::initialized();
